@@ -1,4 +1,4 @@
-// Control for the FORMER finding "call-to-main" (call_main_nontail.sc; repaired in /repo by <commitmain>): here `main` is
+// Control for the FORMER finding "call-to-main" (call_main_nontail.sc; repaired in /repo by f929eb7): here `main` is
 // only called in TAIL position.  Before the fix the Core program was ill-formed (`main(0, mutilde x0. exit x0)` against
 // `def main(n: prd i64)`, Core machine stuck "call-arity") although the native binary happened to behave.  Now main has a
 // return continuation and the program starts at main0; stdout "3\n", exit status 0 everywhere.
